@@ -366,7 +366,7 @@ StartWait(Kx, w, root) ==
   LET W == Kx.gens[w] IN
   IF W.iscall
   THEN LET e2 == Len(Kx.ev) + 1
-           K1 == DoFire(Kx, W.comp, W.spec.name, W.spec.ch, W.spec.prio, W.spec.flags, 0, 0, 0, 0, 0, 0, FALSE)
+           K1 == DoFire(Kx, W.comp, W.spec.name, W.spec.ch, W.spec.prio, W.spec.flags, 0, 0, 0, 0, W.e, W.h, FALSE)
        IN [K1 EXCEPT !.gens[w].obj = e2, !.gens[w].ch = K1.ev[e2].ch, !.gens[w].armed = TRUE, !.refresh[root] = TRUE,
                      !.ev[e2].viacall = TRUE]
   ELSE [Kx EXCEPT !.gens[w].armed = TRUE, !.refresh[root] = TRUE]
@@ -399,7 +399,7 @@ ProcessTask(Kx, t) ==
                  LET K1 == [s[1] EXCEPT !.ev[e].wH = @ - 1, !.tasks = @ \ {t}, !.handling = 0]
                  IN IF K1.ev[e].wH = 0 THEN EventDoneR(ForceInform(K1, e), e, IF SuccessNoErr THEN FALSE ELSE K1.ev[e].errors, root)
                     ELSE K1
-            [] OTHER -> TaskError([s[1] EXCEPT !.tasks = @ \ {t}], e, root, 1)
+            [] OTHER -> TaskError([s[1] EXCEPT !.tasks = @ \ {t}, !.handling = 0], e, root, 1)   \* _stepTask has returned
      ELSE \* a call/wait generator whose event is done: it hands the result to the caller (CallValue -> send)
           LET W  == Kx.gens[g]
               cg == W.caller
@@ -413,7 +413,7 @@ ProcessTask(Kx, t) ==
                [] s[2] = "value" -> [AddResult(s[1], e, s[3]) EXCEPT !.ev[e].wH = @ - 1, !.tasks = @ \cup {<<e, cg, 0, root>>},
                                                                      !.handling = 0]
                [] s[2] = "stop"  -> [s[1] EXCEPT !.ev[e].wH = @ - 1, !.tasks = @ \cup {<<e, cg, 0, root>>}, !.handling = 0]
-               [] OTHER -> TaskError(s[1], e, root, 2)
+               [] OTHER -> TaskError([s[1] EXCEPT !.handling = 0], e, root, 2)
 
 -----------------------------------------------------------------------------
 (* environment *)
